@@ -105,6 +105,10 @@
    * HTTPChannel.cancel() (server shutdown) and a failing `self.requests[0]` /
      `pop(0)` (IndexError: the worker dies in handler_thread's catch-all) are
      represented by the worker leaving the model.
+   * The flush inside send_continue is `self._flush_exception(self._flush_some,
+     do_close=do_close)` (fix 48f7fa0): a send error there sets will_close (the
+     environment step CWillClose) and no exception leaves send_continue any more,
+     so the steps CIOSend / CWSend always run to their end as modelled.
    * close_when_flushed is never reset in this model (handle_write resets it
      when it turns it into will_close and closes: the channel is gone then).
 
@@ -145,7 +149,7 @@
            self.current_outbuf_count += num_bytes
            self.total_outbufs_len += num_bytes
            self.sent_continue = True
-           self._flush_some(do_close=do_close)
+           self._flush_exception(self._flush_some, do_close=do_close)
    def service(self):
        request = self.requests[0]
        ...
